@@ -3,12 +3,77 @@ From ChiaV.Base Require Import Bytes.
 From ChiaV.Clvm Require Import Sexp TreeHash.
 From ChiaV.Gen Require Import ChainConsts.
 From ChiaV.Cond Require Import Model.
-From ChiaV.Chain Require Import Backref Rom Generator RomProofs.
+From ChiaV.Chain Require Import Backref Rom Generator GeneratorSpec RomProofs GeneratorProofs.
 Open Scope N_scope.
 From ChiaV.Props Require Import C07.
+Check C07_agree :
+  forall run valid_key sig_ok H K, run_oracle_ok run H ->
+  forall program refs max_cost gf,
+    max_cost <= COST_MAX -> (g_simple gf = true -> refs = []) ->
+    run_block_generator run valid_key sig_ok H K program refs max_cost gf <> Err CostExceeded ->
+    run_block_generator2 run valid_key sig_ok H K program refs max_cost gf <> Err CostExceeded ->
+    ((exists s1, run_block_generator run valid_key sig_ok H K program refs max_cost gf = Ok s1) <->
+     (exists s2, run_block_generator2 run valid_key sig_ok H K program refs max_cost gf = Ok s2)) /\
+    (forall s1 s2, run_block_generator run valid_key sig_ok H K program refs max_cost gf = Ok s1 ->
+                   run_block_generator2 run valid_key sig_ok H K program refs max_cost gf = Ok s2 ->
+                   same_summary gf s1 s2).
+Print Assumptions C07_agree.
+Check C07_cost_asymmetry :
+  forall run valid_key sig_ok H K, run_oracle_ok run H ->
+  forall program refs max_cost gf s2,
+    max_cost <= COST_MAX -> (g_simple gf = true -> refs = []) ->
+    run_block_generator2 run valid_key sig_ok H K program refs max_cost gf = Ok s2 ->
+    run_block_generator run valid_key sig_ok H K program refs max_cost gf = Err CostExceeded \/
+    exists s1, run_block_generator run valid_key sig_ok H K program refs max_cost gf = Ok s1 /\ same_summary gf s1 s2.
+Print Assumptions C07_cost_asymmetry.
+Check C07_spend_tuple_shape :
+  forall spend,
+  (exists x, extract_5 spend = Ok x) <-> (exists y, rom_destructure spend = Ok y).
+Print Assumptions C07_spend_tuple_shape.
+Check C07_non_nil_terminator_rom :
+  forall run H t, terminator t <> [] -> exists e, recurse run H t = Err e.
+Print Assumptions C07_non_nil_terminator_rom.
+Check C07_non_nil_terminator_native :
+  forall run vk H K fl t ret st m ex sl r s l e' term,
+  native_loop run vk H K t ret st m ex sl fl = Ok (r, s, l, e', term) -> term = Atom (terminator t).
+Print Assumptions C07_non_nil_terminator_native.
+Check C07_spend_budget_independent :
+  forall valid_key K fl H retN st parent ph amount conds mL mN c,
+  process_single_spend valid_key H K fl VEmpty (erase_b retN) st parent ph amount conds mL 0 <> Err CostExceeded ->
+  process_single_spend valid_key H K fl VEmpty retN st parent ph amount conds mN c <> Err CostExceeded ->
+  match process_single_spend valid_key H K fl VEmpty (erase_b retN) st parent ph amount conds mL 0,
+        process_single_spend valid_key H K fl VEmpty retN st parent ph amount conds mN c return Prop with
+  | Ok (rL, sL, lL), Ok (rN, sN, lN) => rL = erase_b rN /\ sL = sN /\ lL <= mL /\ lN <= mN /\ mL - lL = mN - lN
+  | Err _, Err _ => True
+  | _, _ => False
+  end.
+Print Assumptions C07_spend_budget_independent.
 Check C07_rom_deserializer_is_native_deserializer :
   rom_local_deserialize_mod = DESERIALIZER.
 Print Assumptions C07_rom_deserializer_is_native_deserializer.
 Check C07_rom_sha256tree_is_tree_hash :
   forall H t, sha256tree H t = th H t.
 Print Assumptions C07_rom_sha256tree_is_tree_hash.
+Check C07_simple_refs_refuted :
+  exists run H, run_oracle_ok run H /\
+  exists vk sig K program refs max_cost gf,
+    g_simple gf = true /\ refs <> [] /\ max_cost <= COST_MAX /\
+    (exists s, run_block_generator run vk sig H K program refs max_cost gf = Ok s) /\
+    (exists e, run_block_generator2 run vk sig H K program refs max_cost gf = Err e /\ e <> CostExceeded).
+Print Assumptions C07_simple_refs_refuted.
+Check C07_interned_cost_refuted :
+  exists run H, run_oracle_ok run H /\
+  exists vk sig K program refs max_cost gf s1 s2,
+    g_interned gf = true /\ max_cost <= COST_MAX /\
+    run_block_generator run vk sig H K program refs max_cost gf = Ok s1 /\
+    run_block_generator2 run vk sig H K program refs max_cost gf = Ok s2 /\
+    b_cost (fst (fst s1)) < b_cost (fst (fst s2)).
+Print Assumptions C07_interned_cost_refuted.
+Check C07_hypotheses_satisfiable :
+  exists run H, run_oracle_ok run H /\
+  exists vk sig K program refs max_cost gf s1 s2,
+    max_cost <= COST_MAX /\ (g_simple gf = true -> refs = []) /\
+    run_block_generator run vk sig H K program refs max_cost gf = Ok s1 /\
+    run_block_generator2 run vk sig H K program refs max_cost gf = Ok s2 /\
+    length (snd (fst s1)) = 1%nat /\ b_cost (fst (fst s2)) < b_cost (fst (fst s1)).
+Print Assumptions C07_hypotheses_satisfiable.
